@@ -169,6 +169,8 @@ func ZzC10Wire() {
 	if stream.reset {
 		zz.Reach("reset")
 		zz.Assert(len(resps) == 0, "a reset stream carries no response")
+		// a head request is an origin request with origin 0: its amount is irrelevant and never limited
+		zz.Assert(!(kind == 1 && origin == 0), "a head request (origin 0) is answered with the store's head whatever its amount")
 		return
 	}
 	zz.Assert(len(resps) > 0, "an answered request carries at least one response")
